@@ -189,10 +189,25 @@ impl DiagRig {
 
 /// One scenario: up to 3 consecutive diagnostics replies on one peripheral.
 pub fn check_scenario(bufsize: Option<usize>, replies: &[Vec<u8>], obs: &mut Obs) -> CaseResult {
+    check_scenario_resets(bufsize, replies, &[], obs)
+}
+
+/// `resets[i]`: before reply i the application calls reset_address() (with the address the peripheral
+/// has): nothing of the diagnostics received before may remain visible.
+pub fn check_scenario_resets(bufsize: Option<usize>, replies: &[Vec<u8>], resets: &[bool], obs: &mut Obs) -> CaseResult {
     let mut rig = DiagRig::new(bufsize, 9);
     let mut stored: Vec<u8> = vec![]; // model of the extended diagnostics storage
     let mut last: Option<(u16, Option<u8>, u16)> = None;
-    for pdu in replies {
+    for (i, pdu) in replies.iter().enumerate() {
+        if resets.get(i).copied().unwrap_or(false) {
+            let a = rig.addr;
+            rig.master.get_mut(rig.handle).reset_address(a);
+            stored.clear();
+            last = None;
+            obs.label("reset-address-between-replies");
+            let p = rig.master.get_mut(rig.handle);
+            ensure!(p.last_diagnostics().is_none(), "diag-after-reset", "last_diagnostics() is {:?} right after reset_address()", p.last_diagnostics().map(|d| d.ident_number));
+        }
         rig.feed_diag(pdu)?;
         if pdu.len() >= 6 {
             let flags = u16::from_le_bytes([pdu[0], pdu[1]]) & !0x0400;
@@ -382,8 +397,10 @@ pub fn property() -> Property {
                     obs.nontrivial(fingerprint(&(bufsize, &replies)));
                 }
                 obs.label(match bufsize { None => "no-buffer", Some(0) => "buffer-0", _ => "buffer" });
-                obs.sample(|| json!({"buffer": bufsize, "replies": replies.iter().map(|p| hex(p)).collect::<Vec<_>>()}));
-                check_scenario(bufsize, &replies, obs)
+                // (generated last: an exhausted tape means no reset)
+                let resets: Vec<bool> = (0..n).map(|i| i > 0 && !t.chance(4, 5)).collect();
+                obs.sample(|| json!({"buffer": bufsize, "replies": replies.iter().map(|p| hex(p)).collect::<Vec<_>>(), "reset_address_before": resets}));
+                check_scenario_resets(bufsize, &replies, &resets, obs)
             }),
             SubCheck::tape("fuzz_bytes", "raw bytes (entry of the libFuzzer target fz_diag): byte 0 selects the buffer size, the rest is the reply PDU, fed twice", |t, obs| {
                 let b = t.rest_bytes();
